@@ -95,7 +95,10 @@ func (t *Trie) BuildFailureLinks() {
 // Match returns true if the text contains any of the patterns in the trie.
 func (t *Trie) Match(text string) bool {
 	node := &t.root
-	for _, v := range text {
+	for i := 0; i < len(text); {
+		v, size := decodeRune(text, i)
+		i += size
+
 		idx := t.index(node.children, v)
 		for node != &t.root && idx < 0 {
 			node = node.fail
@@ -178,7 +181,10 @@ func (t *Trie) Replace(text string, repl string) string {
 // PrefixSearch returns all patterns that have the key as prefix.
 func (t *Trie) PrefixSearch(key string) []string {
 	node := &t.root
-	for _, v := range key {
+	for i := 0; i < len(key); {
+		v, size := decodeRune(key, i)
+		i += size
+
 		idx := t.index(node.children, v)
 		if idx < 0 {
 			return nil
@@ -212,7 +218,7 @@ func (t *Trie) PrefixSearch(key string) []string {
 		cur := stack[last]
 		stack = stack[:last]
 
-		buf.WriteRune(cur.r)
+		writeRune(&buf, cur.r)
 		if cur.node.isEnd {
 			ret = append(ret, buf.String())
 		}
@@ -242,7 +248,10 @@ func (t *Trie) FuzzySearch(key string) []string {
 	}
 
 	node := &t.root
-	for _, v := range key {
+	for i := 0; i < len(key); {
+		v, size := decodeRune(key, i)
+		i += size
+
 		idx := t.index(node.children, v)
 		for node != &t.root && idx < 0 {
 			node = node.fail
@@ -282,7 +291,7 @@ func (t *Trie) FuzzySearch(key string) []string {
 			cur := stack[last]
 			stack = stack[:last]
 
-			buf.WriteRune(cur.r)
+			writeRune(&buf, cur.r)
 			if cur.node.isEnd {
 				ret = append(ret, buf.String())
 			}
@@ -393,13 +402,30 @@ func (t *Trie) findChildIndex(children []childNode, val rune) int {
 	return low
 }
 
+// invalidByteBase + b stands for the invalid byte b: it lies above
+// utf8.MaxRune, so it can never equal a rune of valid text (in particular
+// not a real U+FFFD) and only ever matches the same byte.
+const invalidByteBase = utf8.MaxRune + 1
+
 func decodeRune(s string, i int) (rune, int) {
 	if b := s[i]; b < utf8.RuneSelf {
 		return rune(b), 1
 	}
 
 	r, size := utf8.DecodeRuneInString(s[i:])
+	if r == utf8.RuneError && size <= 1 {
+		return invalidByteBase + rune(s[i]), 1
+	}
 	return r, size
+}
+
+// writeRune is the inverse of decodeRune.
+func writeRune(buf *bytes.Buffer, r rune) {
+	if r > utf8.MaxRune {
+		buf.WriteByte(byte(r - invalidByteBase))
+		return
+	}
+	buf.WriteRune(r)
 }
 
 type trieFrame struct {
